@@ -8,6 +8,7 @@ Stub: TCP transport, DNS, clock; reactive scripted origin server (response k+1 o
 import asyncio
 import functools
 import io
+import re
 
 from simlib.env import SimEnv, SimDeadlock, SimBudgetExceeded, task_stacks
 from simlib.runner import Result
@@ -56,6 +57,17 @@ INFO = {
 }
 
 
+def close_announced(resp):
+    """How the response tells the client that the connection ends with it (RFC 7230 6.1, 6.3), or None."""
+    if resp.framing == 'close':
+        return None                 # delimited by the close itself
+    if re.search(br'(?im)^connection:[ \t]*close[ \t]*\r?$', resp.head):
+        return 'connection-close-field'
+    if resp.head.startswith(b'HTTP/1.0') and not re.search(br'(?im)^connection:[ \t]*keep-alive[ \t]*\r?$', resp.head):
+        return 'http/1.0-without-keep-alive'
+    return None
+
+
 class ScriptServer:
     """Reactive origin: answers the k-th request (over all connections) with script[k]."""
 
@@ -81,6 +93,12 @@ class _ConnHandler:
             h.next_req += 1
             h.req_conn.append(conn.id)
             h.req_bytes.append(req + b'\r\n\r\n')
+            if conn.server_closed:
+                # a request on a connection whose previous response announced its end (Connection: close, or HTTP/1.0 without
+                # keep-alive) and that the server is about to close: it is never answered
+                h.resp_span.append((conn, len(conn.s2c), len(conn.s2c)))
+                h.sent.append((b'', 'fin'))
+                continue
             if k >= len(h.script):
                 conn.send(b'HTTP/1.1 500 No Script\r\nContent-Length: 0\r\n\r\n')
                 continue
@@ -98,7 +116,8 @@ class _ConnHandler:
             else:
                 conn.send(wire, cuts=resp.hints + [len(resp.message)])
                 if resp.close_after:
-                    conn.finish()
+                    # the FIN may reach the client after it has gone on to its next request: the response said so beforehand
+                    conn.finish(delay=h.tape.choice((0.0, 0.0, 0.3, 4.0), 'close.delay') if close_announced(resp) else 0.0)
                     h.sent.append((wire, 'fin'))
                 else:
                     h.sent.append((wire, None))
@@ -115,6 +134,7 @@ def execute(tape, script, r, seg_mode=None, vary_latency=True, timeout=60.0, ign
     """Run the script through the real client. Returns list of outcome dicts."""
     h = H()
     h.script = script
+    h.tape = tape
     h.next_req = 0
     h.conn_log = []
     h.req_conn = []
@@ -266,6 +286,13 @@ def judge(prop, r, script, outcomes, h, label=''):
                 r.violate(prop, 'truncated-accepted', '%s:%s' % (shape, ref.error),
                           'exchange %d %s: message truncated (%s) but reported as success with %d body bytes%s'
                           % (i, resp.desc, ref.error, len(o['body']), label))
+            break
+        # connection reuse after the response announced the end of the connection
+        if prop == 'C08' and resp.close_after and resp.truncate_at is None and close_announced(resp) and i + 1 < len(h.req_conn) and h.req_conn[i + 1] == h.req_conn[i]:
+            how = close_announced(resp)
+            r.violate(prop, 'reused-after-close-announced', '%s:%s' % (how, 'no-body' if ref.framing == 'none' else 'body'),
+                      'exchange %d %s: the response announced that the connection ends (%s) but the next request was sent on it '
+                      '(the server closes; that request is never answered)%s' % (i, resp.desc, how, label))
             break
         # connection reuse after surplus bytes
         if prop == 'C08' and resp.surplus and resp.framing == 'length' and i + 1 < len(h.req_conn):
